@@ -625,7 +625,8 @@ Section C18.
         match run_nodes st1 (p_nodes pack) with
         | None =>
             let stx := upto st1 (p_nodes pack) in
-            mk_outcome (rs_world T stx) (VFatal FHistory) (rs_commands T stx) []
+            mk_outcome (write_table T (rs_world T stx) (table_rest T hc t pack)) (VFatal FHistory)
+                       (rs_commands T stx) []
         | Some st2 =>
             let js := joined T teqb hr st2 in
             mk_outcome (write_table T (js_world T js) (js_table T js))
@@ -718,7 +719,7 @@ Section C18.
     | Err f => mk_outcome (init_dir_world_on_error T w) (VFatal f) [] []
     | Ok (w1, t) => build_from w1 t rp goal
     end.
-  Proof. reflexivity. Qed.
+  Proof. rewrite (build_eq T teqb hc hl hr). destruct (init_dir T w) as [[w1 t]|f]; reflexivity. Qed.
 
   Lemma init_dir_wt (w : world) x :
     rd_table (w_rd w) <> Some SF_bad -> x <> Some SF_bad ->
